@@ -1145,11 +1145,16 @@ def run_tab_retune(case):
         t.add_bar(b)
         return _render_outcome(tablature.from_Track, t, **_kw(tv, "maxwidth", 80))
 
+    # the reference rendering comes first (an identical bar, never rendered for A), preceded by a rendering of other music
+    # so that nothing this case is about has been looked at just before
+    other = Bar("C", (4, 4))
+    other.place_notes(NoteContainer([mknote(min(tb.opens()) + 1)]), 1)
+    render(other, tb)
+    fresh = render(build(), tb)
     bar = build()
     first = render(bar, ta)
     second = render(bar, tb)
-    fresh = render(build(), tb)
-    S.trans(3)
+    S.trans(4)
     S.count("retunes")
     if first[0] == "text" and fresh[0] == "text":
         S.count("retunes_playable_on_both_tunings")
